@@ -572,7 +572,14 @@ class Collada(object):
         scenenode = self.xmlnode.find(self.tag('scene'))
         if scenenode is None:
             scenenode = E.scene()
-            self.xmlnode.getroot().append(scenenode)
+            # <scene> precedes the <extra> children of the root
+            root = self.xmlnode.getroot()
+            loc = len(root)
+            for i, child in enumerate(root):
+                if child.tag == self.tag('extra'):
+                    loc = i
+                    break
+            root.insert(loc, scenenode)
         scenenode.clear()
         if self.scene is not None:
             sceneid = self.scene.id
